@@ -183,6 +183,7 @@ def run(fx, chk, tier):
     chk.rule("R2", "box_type() of each box struct is the variant carrying the registered four-character code")
     chk.rule("R3", "bit-packed bytes: encoder and decoder bit routing equal the specification's bit ranges and reserved values")
     chk.rule("R4", "32/64-bit header form selection and descriptor length encoding match the specifications")
+    chk.rule("R6", "the size word of every box equals the number of bytes its layout writes, in every shape cell (C04 S1/S2 instances)")
     chk.rule("R5", "four-character-code, enum-code and packed-language conversions used by the encoders/decoders equal the registered tables (C16 R1/R2/R3/R5 instances)")
     chk.assume("spec/layouts.json, spec/bits.json, spec/fourcc.json were written from the standards; entries marked unverified only produce notes")
     ms = c04.models(fx)
@@ -277,6 +278,24 @@ def run(fx, chk, tier):
         else:
             chk.bad("R5", key, o["how"], o["site"], o.get("detail"))
     chk.floor("R5", "conversion-table obligations", n5, 60)
+    # ---------------- R6: the size word.  The first field of every box on the wire is its own length: the header written by
+    # write_box must carry box_size(), and box_size() must equal the bytes the layout writes in every shape cell
+    # (instances owned by C04 S1/S2, re-evaluated here)
+    s4 = report.Check("C04")
+    s4.finish = lambda *a, **k: 0
+    c04.run(fx, s4, tier)
+    n6 = 0
+    for o in s4.obligations:
+        r = o["rule"]
+        if r.split(".")[0] not in ("S1", "S2"):
+            continue
+        n6 += 1
+        key = "C04:%s|%s" % (r, o["key"])
+        if o["ok"]:
+            chk.ok("R6", key, o["how"], o["site"])
+        else:
+            chk.bad("R6", key, o["how"], o["site"], o.get("detail"))
+    chk.floor("R6", "size-word obligations", n6, 90)
     return chk.finish(
         "other",
         "Write and read layouts of %d box types (extracted from HIR) are compared with an independent table of the ISO/IEC 14496 family layouts in every shape cell; four-character codes, bit packing and header forms likewise. "
